@@ -8,6 +8,18 @@ HTML_ONLY = ['checked', 'default', 'indeterminate', 'disabled', 'enabled', 'requ
              'in-range', 'out-of-range', 'placeholder-shown', 'link', 'any-link', 'defined']
 
 
+def _spelled(selmod, ast, rng):
+    """a random respelling of the AST (escapes, case of keywords, white space / comments): the document-type rules are about names and
+    values, not about how the selector is spelled"""
+    import random as _r
+    import zlib
+    selmod.SPELL = _r.Random(zlib.crc32(repr(ast).encode()) + common.SEED)
+    try:
+        return selmod.selector_list(ast)
+    finally:
+        selmod.SPELL = None
+
+
 def main(tier):
     chk = common.Check('C11', tier)
     chk.assumptions += ['CssDecl.NameKey / Insensitive are the reading of the property; ASCII letters only (Python re.I is Unicode-wide)',
@@ -122,7 +134,7 @@ def trace_part(chk, tier):
             root = min([i + 1 for i, (p, k) in enumerate(zip(d['parent'], d['kind'])) if p == 0 and k == 'e'] or [0])
             is_plain_xml = parser == 'xml' and variant in ('plain', 'embed')
             for j, ast in enumerate(nssels):
-                css = selmod.selector_list(ast)
+                css = _spelled(selmod, ast, rng if 'rng' in dir() else None)
                 ev = {'id': '%s.%s.ns%d' % (parser, variant, j), 'doc': d, 'sel': ast, 'nsmap': [{'p': cps('x'), 'u': cps(XLINK)}],
                       'scope': root, 'target': 0, 'css': css}
                 if not (d['xml'] or any(n and common.st(n) == 'http://www.w3.org/1999/xhtml' for n in d['ns'])):
@@ -137,7 +149,7 @@ def trace_part(chk, tier):
                 k0 = ast[0]['cs'][0][0]['k']
                 if (k0 in HTML_ONLY or k0 == 'dir') and not is_plain_xml:
                     continue      # the definitions of the HTML state pseudo-classes belong to C17; here: never in plain XML
-                css = selmod.selector_list(ast)
+                css = _spelled(selmod, ast, rng if 'rng' in dir() else None)
                 # the document kind is a property of the DOCUMENT, whatever element the call is made on: besides the document object, every
                 # element with element children is a call target (e.g. the XHTML-namespaced <div> embedded in a plain XML feed)
                 inner = [i + 1 for i, kk in enumerate(d['kind']) if kk == 'e' and any(p == i + 1 and k2 == 'e' for p, k2 in zip(d['parent'], d['kind']))]
